@@ -37,6 +37,7 @@ type RevPlan struct {
 	Conts  int     `json:"conts,omitempty"`
 	Shuffle uint64 `json:"shuffle,omitempty"`
 	LenInStm bool  `json:"len_in_stm,omitempty"`
+	NoHead   bool  `json:"no_head,omitempty"` // the update does not rewrite object 0's entry when it frees objects
 }
 
 type LStep struct {
@@ -53,6 +54,13 @@ type Spec struct {
 	Revs    []RevPlan `json:"revs"`
 	History [][]LStep `json:"history"`
 	Enumerated bool   `json:"enumerated,omitempty"`
+	Misdirect *Misdirect `json:"misdirect,omitempty"` // at-rest fault: one cross-reference entry points at another object's superseded body
+}
+
+// Misdirect: in revision Rev the entry of object A carries the offset at which
+// revision ToRev wrote object B.
+type Misdirect struct {
+	Rev, A, ToRev, B int
 }
 
 type Prop struct{}
@@ -60,7 +68,7 @@ type Prop struct{}
 func New() *Prop        { return &Prop{} }
 func (*Prop) ID() string { return "C04" }
 
-const firstPlay = 3 // objects 1 (catalog) and 2 (pages) are structural and never touched
+const firstPlay = 1 // the playground is 1..N; catalog (N+1) and pages (N+2) are structural and never touched
 
 // ---- exhaustive small space: n = 2 objects, r <= 3 revisions ----
 
@@ -173,6 +181,7 @@ func (p *Prop) Generate(base uint64, index int, env *sim.Env) *sim.Case {
 		if rp.Stream && rev > 0 && r.Pct(20) {
 			rp.Repack = true
 		}
+		rp.NoHead = rev > 0 && r.Pct(35)
 		for o := 0; o < sp.N; o++ {
 			num := firstPlay + o
 			switch {
@@ -190,6 +199,32 @@ func (p *Prop) Generate(base uint64, index int, env *sim.Env) *sim.Case {
 	if faulty {
 		c.Mode = "faults"
 	}
+	if !faulty && nrev > 1 && r.Pct(20) {
+		// at-rest fault: a misdirected cross-reference entry (decided after a dry build, which
+		// tells where the superseded bodies are)
+		b, _ := build(&sp)
+		last := nrev - 1
+		var as, bs [][2]int
+		for _, num := range pdfw.SortedNums(b.Offsets[last]) {
+			if num >= firstPlay && num <= sp.N {
+				as = append(as, [2]int{last, num})
+			}
+		}
+		for rv := 0; rv < last; rv++ {
+			for _, num := range pdfw.SortedNums(b.Offsets[rv]) {
+				if num >= firstPlay && num <= sp.N {
+					bs = append(bs, [2]int{rv, num})
+				}
+			}
+		}
+		if len(as) > 0 && len(bs) > 0 {
+			a, bb := sim.Pick(r, as), sim.Pick(r, bs)
+			if a[1] != bb[1] {
+				sp.Misdirect = &Misdirect{Rev: a[0], A: a[1], ToRev: bb[0], B: bb[1]}
+				c.Mode = "faults"
+			}
+		}
+	}
 	for rev := 0; rev < nrev; rev++ {
 		n := 3 + r.Intn(25)
 		if r.Pct(10) {
@@ -198,7 +233,7 @@ func (p *Prop) Generate(base uint64, index int, env *sim.Env) *sim.Case {
 		var h []LStep
 		for i := 0; i < n; i++ {
 			op := sim.Pick(r, []string{"get", "get", "get", "resolve", "deep", "xref", "rget", "clearcache", "reopen"})
-			st := LStep{Op: op, Num: r.Intn(sp.N + firstPlay + 3)}
+			st := LStep{Op: op, Num: r.Intn(sp.N + 6)}
 			if i > 0 && r.Pct(25) {
 				st.Num = h[r.Intn(len(h))].Num // repeat an earlier number
 			}
@@ -230,10 +265,10 @@ func makeValue(w *pdfw.Writer, sp *Spec, rev int, op ObjOp, r *sim.Rand, set map
 	case 3:
 		return pdfw.Name("N" + tag)
 	case 4:
-		return pdfw.Arr{pdfw.Name(tag), serial, pdfw.Ref{Num: 1, Gen: 0}, pdfw.Str{B: []byte(tag)}, pdfw.Arr{1, pdfw.Real(2.5), nil, true}}
+		return pdfw.Arr{pdfw.Name(tag), serial, pdfw.Ref{Num: sp.N + 1, Gen: 0}, pdfw.Str{B: []byte(tag)}, pdfw.Arr{1, pdfw.Real(2.5), nil, true}}
 	case 5:
-		return pdfw.Dict{{"Tag", pdfw.Str{B: []byte(tag)}}, {"Serial", serial}, {"Root", pdfw.Ref{Num: 1, Gen: 0}},
-			{"Sub", pdfw.Dict{{"K", pdfw.Name(tag)}, {"Pages", pdfw.Ref{Num: 2, Gen: 0}}}}, {"Flag", false}}
+		return pdfw.Dict{{"Tag", pdfw.Str{B: []byte(tag)}}, {"Serial", serial}, {"Root", pdfw.Ref{Num: sp.N + 1, Gen: 0}},
+			{"Sub", pdfw.Dict{{"K", pdfw.Name(tag)}, {"Pages", pdfw.Ref{Num: sp.N + 2, Gen: 0}}}}, {"Flag", false}}
 	case 6, 7, 8:
 		plain := []byte("stream data " + tag + "\n" + strings.Repeat("pad "+tag+" ", r.Intn(4)*300))
 		st := &pdfw.Stream{Dict: pdfw.Dict{{"Tag", pdfw.Name(tag)}}, Plain: plain}
@@ -260,18 +295,41 @@ func makeValue(w *pdfw.Writer, sp *Spec, rev int, op ObjOp, r *sim.Rand, set map
 }
 
 // build commits all revisions and returns per-revision appended bytes and models.
-func build(sp *Spec) (*pdfw.Built, [][]byte) {
+func build(sp *Spec) (*pdfw.Built, [][]byte) { return buildHooked(sp, nil) }
+
+// buildCase builds the file of a case, with its at-rest fault if it has one.
+func buildCase(sp *Spec) (*pdfw.Built, [][]byte, bool) {
+	built, commits := build(sp)
+	if md := sp.Misdirect; md != nil && md.Rev < len(built.Offsets) && md.ToRev < len(built.Offsets) {
+		if target, ok := built.Offsets[md.ToRev][md.B]; ok {
+			if _, ok := built.Offsets[md.Rev][md.A]; ok {
+				b2, c2 := buildHooked(sp, func(rev, num, off int) int {
+					if rev == md.Rev && num == md.A {
+						return target
+					}
+					return off
+				})
+				return b2, c2, true
+			}
+		}
+	}
+	return built, commits, false
+}
+
+func buildHooked(sp *Spec, offsetHook func(rev, num, off int) int) (*pdfw.Built, [][]byte) {
 	r := sim.NewRand(sp.Seed)
 	st := pdfw.Style{EOL: []string{"\n", "\r\n", "\r"}[sp.EOL%3], Tight: sp.Tight, OctalPct: 50}
-	w := pdfw.NewWriter(st, r.Split("writer"), pdfw.Ref{Num: 1}, nil, firstPlay+sp.N+1)
+	cat, pgs := sp.N+1, sp.N+2
+	w := pdfw.NewWriter(st, r.Split("writer"), pdfw.Ref{Num: cat}, nil, sp.N+3)
+	w.OffsetHook = offsetHook
 	var commits [][]byte
 	for rev, rp := range sp.Revs {
 		set := map[int]pdfw.Obj{}
 		inStm := map[int]bool{}
 		var free []int
 		if rev == 0 {
-			set[1] = pdfw.Dict{{"Type", pdfw.Name("Catalog")}, {"Pages", pdfw.Ref{Num: 2}}}
-			set[2] = pdfw.Dict{{"Type", pdfw.Name("Pages")}, {"Kids", pdfw.Arr{}}, {"Count", 0}}
+			set[cat] = pdfw.Dict{{"Type", pdfw.Name("Catalog")}, {"Pages", pdfw.Ref{Num: pgs}}}
+			set[pgs] = pdfw.Dict{{"Type", pdfw.Name("Pages")}, {"Kids", pdfw.Arr{}}, {"Count", 0}}
 		}
 		vr := r.Split("rev" + strconv.Itoa(rev))
 		for _, op := range rp.Ops {
@@ -283,7 +341,7 @@ func build(sp *Spec) (*pdfw.Built, [][]byte) {
 			inStm[op.Num] = op.InStm
 		}
 		rs := pdfw.RevSpec{Set: set, Free: free, XRefStream: rp.Stream, InObjStm: inStm, ObjStms: rp.Conts, ObjStmFlate: rp.StmZ,
-			XRefFlate: rp.XRefZ, Shuffle: rp.Shuffle}
+			XRefFlate: rp.XRefZ, Shuffle: rp.Shuffle, NoHead: rp.NoHead}
 		if rp.Repack {
 			rs.RepackOld = w.OldestContainer()
 		}
@@ -428,7 +486,10 @@ func (p *Prop) Execute(c *sim.Case, env *sim.Env) *sim.Result {
 	var sp Spec
 	c.GetSpec(&sp)
 	res := &sim.Result{Status: "ok"}
-	built, commits := build(&sp)
+	built, commits, misdirected := buildCase(&sp)
+	if misdirected {
+		res.Count("fault.xref-misdirect.injected", 1)
+	}
 	if img, ok := c.Images["pdf"]; ok {
 		commits = nil
 		last := 0
@@ -488,7 +549,14 @@ func (p *Prop) Execute(c *sim.Case, env *sim.Env) *sim.Result {
 				wantErr := !present || e.Free
 				where := fmt.Sprintf("rev %d step %d %s(%d) after %s", rev, si, st.Op, st.Num, lastOp)
 				states[fmt.Sprintf("%s>%s:%v:%v:%d", lastOp, st.Op, present, e.Free, e.InStm)] = true
+				damaged := sp.Misdirect != nil && rev >= sp.Misdirect.Rev && st.Num == sp.Misdirect.A
 				check := func(got core.Object, err error, deep bool) {
+					if damaged {
+						res.Count("fault.xref-misdirect.fired", 1)
+						if err != nil {
+							return // the damaged entry may fail; it must not yield another object's data (checked below)
+						}
+					}
 					switch {
 					case wantErr && err == nil:
 						fail(st.Op+":no-error", fmt.Sprintf("%s: object %d is %s, but the lookup returned %s", where, st.Num, describe(e, present), trimS(fmt.Sprint(got), 100)))
@@ -852,7 +920,7 @@ func (p *Prop) Shrink(c *sim.Case) []*sim.Case {
 func (p *Prop) Finalise(c *sim.Case, env *sim.Env) {
 	var sp Spec
 	c.GetSpec(&sp)
-	b, _ := build(&sp)
+	b, _, _ := buildCase(&sp)
 	if c.Images == nil {
 		c.Images = map[string][]byte{}
 	}
